@@ -130,7 +130,8 @@ def run(ck: Check):
         os.mkdir(os.path.join(work, "other"))
         for rel, marker in (("yes.py", "cwd-yes"), ("d/yes.py", "d-yes"), ("other/yes.py", "other-yes"), ("d/test.py", "d-test"),
                             ("d/json.py", "d-json"), ("d/mytest.py", "d-mytest"), ("crashes.py", "cwd-crashes"),
-                            ("outputs2.py", "cwd-outputs2")):
+                            ("outputs2.py", "cwd-outputs2"), ("d/is_happy.py", "d-is_happy"), ("check_p.py", "cwd-check_p"),
+                            ("d/ppy.py", "d-ppy")):
             with open(os.path.join(work, rel), "w") as f:
                 f.write(f"MARKER = {marker!r}\ndef interesting(a, p):\n    return True\n")
         for fn in ("t.txt", "other.txt", "x", "4", "yes.py.txt"):
@@ -168,6 +169,26 @@ def run(ck: Check):
                     cmds.append((pre, "yes.py", tuple(suf) + ("t.txt",)))
         r.shuffle(cmds)
         cmds = cmds[: (700 if quick else 6000)]
+        # --chunk-size with --min / --max / --repeat in EVERY order and both spellings (the shortcut wins wherever it
+        # stands), and equal --min/--max with each repeat mode (not a shortcut for anything)
+        chunk = [("--chunk-size", "2", "sep"), ("--chunk-size", "4", "eq")]
+        others = [("--min", "4", "sep"), ("--max", "8", "eq"), ("--repeat", "always", "sep"), ("--repeat", "last", "eq"),
+                  ("--min", "1", "eq"), ("--max", "1", "sep")]
+        for c in chunk:
+            for o in others:
+                cmds.append(((c, o), "yes.py", ("t.txt",)))
+                cmds.append(((o, c), "yes.py", ("t.txt",)))
+            for o1, o2 in itertools.permutations(others[:4], 2):
+                if o1[0] != o2[0]:
+                    for pre in ((c, o1, o2), (o1, c, o2), (o1, o2, c)):
+                        cmds.append((pre, "yes.py", ("t.txt",)))
+        for v in ("1", "2", "8"):
+            for rep in ("always", "last", "never"):
+                cmds.append(((("--min", v, "sep"), ("--max", v, "sep"), ("--repeat", rep, "sep")), "yes.py", ("t.txt",)))
+                cmds.append(((("--repeat", rep, "eq"), ("--max", v, "eq"), ("--min", v, "eq")), "yes.py", ("-c", "t.txt")))
+        for v in ("0", "1"):
+            cmds.append(((("--max-run-time", v, "sep"),), "yes.py", ("t.txt",)))
+            cmds.append(((("--strategy", "minimize-around", "eq"), ("--max-run-time", v, "eq")), "yes.py", ("t.txt",)))
         # naming the test
         naming = [((), "d/yes.py", ("t.txt",), "d/yes.py"), ((), "yes", ("t.txt",), "yes.py"),
                   ((), "yes.py", ("t.txt",), "yes.py"), ((), "outputs", ("-s", "a", "true", "t.txt"), "builtin:lithium.interestingness.outputs"),
@@ -175,6 +196,8 @@ def run(ck: Check):
                   ((), "d/json.py", ("t.txt",), "d/json.py"), ((), "crashes", ("true", "t.txt"), "crashes.py"),
                   ((), "outputs2", ("t.txt",), "outputs2.py"), ((), "nosuchtest", ("t.txt",), "ImportError"),
                   ((), os.path.join(work, "d", "yes.py"), ("t.txt",), "d/yes.py"),
+                  ((), "d/is_happy.py", ("t.txt",), "d/is_happy.py"), ((), "check_p.py", ("t.txt",), "check_p.py"),
+                  ((), "check_p", ("t.txt",), "check_p.py"), ((), "d/ppy.py", ("t.txt",), "d/ppy.py"),
                   # the test's directory is already on sys.path, after a directory holding a same-named module
                   (("@path=other,d",), "d/yes.py", ("t.txt",), "d/yes.py"),
                   (("@path=d",), "d/mytest.py", ("t.txt",), "d/mytest.py"),
